@@ -42,7 +42,7 @@ MAX_FNS = {'np.maximum', 'np.max', 'max', 'np.nanmax', 'np.fmax', 'np.amax'}
 
 def run(ctx: Ctx):
   m = model(ctx)
-  for r in (r1, r2, r3, r4, r5, r6, r7, r10, r11, r12, r13, r14, r15, r17, r18):
+  for r in (r1, r2, r3, r4, r5, r6, r7, r10, r11, r12, r13, r14, r15, r17, r18, r19):
     ctx.guard(r, m)
   ctx.include('R-C01-8', 'merge leaves its operand intact and shares no'
               ' mutable state with it (R-C11-1, R-C11-2): a shard state that'
@@ -1252,11 +1252,48 @@ def r18(ctx: Ctx, m):
   ctx.floor(rule, 2, n)
 
 
+def r19(ctx: Ctx, m):
+  rule = 'R-C01-19'
+  ctx.rule(rule, '"any number of independent accumulators ... merged": the configuration an accumulator merges under is the one it'
+           ' accumulates under. A configuration field whose annotation admits both an integer and None (`axis: int | None`)'
+           ' is never used as a truth value in the methods of its class: `0` is a value (reduce along the first axis), None'
+           ' the "not set" marker — `x if self.axis else y` treats the configured axis 0 like None, so merge() reduces the'
+           ' per-column results of two shards to scalars while add() keeps them per column')
+  from mlmverif.props.c17 import _truth_positions
+  n = 0
+  for ci in m.classes:
+    opt = set()
+    for st in ci.node.body:
+      if isinstance(st, ast.AnnAssign) and isinstance(st.target, ast.Name):
+        a = unparse(st.annotation).replace(' ', '')
+        if a in ('int|None', 'None|int', 'Optional[int]', 'typing.Optional[int]'):
+          opt.add(st.target.id)
+    if not opt:
+      continue
+    for name, fi in ci.methods.items():
+      for t in _truth_positions(fi.node):
+        if is_self_attr(t) and t.attr in opt:
+          n += 1
+          ctx.fail(rule, fi, f'{ci.name}.{name}: `self.{t.attr}` is compared with None, not tested by truth',
+                   f'`self.{t.attr}` (annotated `int | None`) is used as a truth value in {ci.name}.{name} (line {t.lineno}): the'
+                   f' configured value 0 is taken for "not set" — {name} then works under another configuration than the'
+                   ' accumulation, and the merged result of shards differs from the single-accumulator result', node=t)
+    n += 1
+    ctx.ok(rule, next(iter(ci.methods.values())), f'{ci.name}: optional integer configuration {sorted(opt)} examined', ci.node)
+  ctx.floor(rule, 1, n)
+
+
 from mlmverif.selfcheck import B, OK  # noqa: E402
 
 _R = 'aggregates/rolling_stats.py'
 _C = 'aggregates/classification.py'
 VARIANTS = [
+    B('minmax-merge-takes-axis-zero-for-unset', _R,
+      '    self._min = np.min((self._min, other.min), axis=self.axis)\n    self._max = np.max((self._max, other.max), axis=self.axis)',
+      '    axis = 0 if self.axis else None\n    self._min = np.min((self._min, other.min), axis=axis)\n    self._max = np.max((self._max, other.max), axis=axis)', 'R-C01-19'),
+    OK('minmax-merge-axis-through-is-none', _R,
+       '    self._min = np.min((self._min, other.min), axis=self.axis)\n    self._max = np.max((self._max, other.max), axis=self.axis)',
+       '    axis = None if self.axis is None else self.axis\n    self._min = np.min((self._min, other.min), axis=axis)\n    self._max = np.max((self._max, other.max), axis=axis)'),
     B('minmax-nan-skipped-per-batch-only', _R,
       '    self._min = np.minimum(self._min, np.min(inputs, axis=self.axis))\n    self._max = np.maximum(self._max, np.max(inputs, axis=self.axis))',
       '    self._min = np.minimum(self._min, np.nanmin(inputs, axis=self.axis))\n    self._max = np.maximum(self._max, np.nanmax(inputs, axis=self.axis))', 'R-C01-17'),
